@@ -166,7 +166,7 @@ class Gen:
             second = {"t": "vars", "sel": rootsel, "defs": all_defs[cut:], "color": None}
             all_defs = all_defs[:cut]
         root = {"t": "vars", "sel": rootsel, "defs": all_defs, "color": None}
-        if rnd.random() < self.f_known * 0.5:      # F4 class: literal color directly in the :root/html rule
+        if rnd.random() < max(0.2, self.f_known * 0.5):      # a literal color directly in the :root/html rule (next to its custom properties)
             bg = (255, 255, 255)
             root["color"] = lit(self.colour_for(rnd.choice(["fix", "ok"]), bg), rnd, ["hex6", "rgbfn"])
         pos = rnd.choice([0, 0, len(body)]) if rnd.random() < 0.8 else rnd.randrange(len(body) + 1)
@@ -417,6 +417,12 @@ def resolve(e, tbl, seen=()):
 
 
 def sel_key(text):
+    # (a byte-order mark that was read as text and so sticks to the first selector is not part of the selector)
+    text = text.replace("\ufeff", "")
+    return _sel_key(text)
+
+
+def _sel_key(text):
     return tinycss2.serialize(tinycss2.parse_component_value_list(text)).strip()
 
 
@@ -480,7 +486,7 @@ def parse_report(path):
         if c["styles"]:
             m = re.search(r"background-color:\s*(.*?);\s*color:", c["styles"][0])
             bg = m.group(1).strip() if m else ""
-        cards.append({"selector": c["selector"].strip(), "file": c["file"].strip(), "bg": bg,
+        cards.append({"selector": c["selector"].replace("\ufeff", "").strip(), "file": c["file"].strip(), "bg": bg,
                       "before": c["codes"][0].strip() if c["codes"] else "", "after": c["codes"][1].strip() if len(c["codes"]) > 1 else "",
                       "levels": [b.strip() for b in c["badges"]]})
     return cards
@@ -497,7 +503,7 @@ def parse_stdout(text):
         for line in m.group(1).splitlines():
             mm = re.match(r"  (.+?) -> (.*)$", line)
             if mm and not line.startswith("    "):
-                res["failedSel"].append((mm.group(1), mm.group(2).strip()))
+                res["failedSel"].append((mm.group(1), mm.group(2).replace("\ufeff", "").strip()))
     return res
 
 
@@ -632,7 +638,8 @@ def flatten_sheet(css_text, ids):
             if n.type == "comment":
                 items.append({"k": "comment", "a": ids(("comment", n.value)), "b": 0, "imp": False, "rule": 0, "name": ""})
             elif n.type == "qualified-rule":
-                rid = ids(("sel", norm_tokens(n.prelude)))
+                # (a byte-order mark read as text sticks to the first selector: not part of the rule's identity)
+                rid = ids(("sel", norm_tokens(tinycss2.parse_component_value_list(tinycss2.serialize(n.prelude).replace("\ufeff", "")))))
                 items.append({"k": "open-rule", "a": rid, "b": 0, "imp": False, "rule": rid, "name": sel_key(tinycss2.serialize(n.prelude))})
                 decls(n.content, rid)
                 items.append({"k": "close", "a": rid, "b": 0, "imp": False, "rule": rid, "name": ""})
